@@ -163,6 +163,31 @@ class Gen(TypeGen, TermGen):
                 execs.append(['exec', f])
                 self.cov['decl:exec'] += 1
                 roots.append(('exec:' + f, self.fsig[f]['res']))
+        self.diverges = False
+        if not self.want_terminating and self.closed and rng.random() < 0.7:
+            # a client that asks a recursive server for ever (bounded number of live processes)
+            tn = self.fresh_type_name()
+            lab = rng.choice(['next', 'more', 'again'])
+            body = ('&', 'lin', ((lab, tname('lin', tn)),), None)
+            self.tenv[tn] = body
+            self.tinfo[tn] = {'shape': 'service', 'rec': True, 'group': {tn}}
+            self.defmodes[tn] = 'lin'
+            self.tdecls.append(['type', tn, ['ty', body, True]])
+            srv, cli = self.fresh_fun('loop'), None
+            self.fsig[srv] = {'params': [], 'res': tname('lin', tn), 'explicit': False, 'complete': True, 'lib': True}
+            cli = self.fresh_fun('run')
+            self.fsig[cli] = {'params': [('x', tname('lin', tn))], 'res': t1('lin'), 'explicit': False,
+                              'complete': True, 'lib': True}
+            T = tname('lin', tn)
+            self.fdecls.append(['let', srv, [], ['ty', T, False],
+                                ['case', 'self', [[lab, 'k', ['print', self.print_label(), ['call', srv, []]]]]], None])
+            self.fdecls.append(['let', cli, [['x', ['ty', T, False]]], ['ty', t1('lin'), True],
+                                ['new', 'y', ['ty', T, False], ['sel', 'x', lab, 'self'], ['call', cli, ['y']]], None])
+            nm = pool.pop()
+            prcs.append(['prc', [nm], ['ty', t1('lin'), True], ['new', 's', None, ['call', srv, []], ['call', cli, ['s']]]])
+            roots.append((nm, t1('lin')))
+            self.diverges = True
+            self.cov['top:diverging-client-server'] += 1
         unused_neg = [n for n, t in roots if not self.hereditarily_positive(t)]
         if unused_neg:
             self.cov['top:unused-negative-provider'] += 1
@@ -201,6 +226,7 @@ def _meta(g, decls, roots, unused_neg, ref):
         'print_labels_by_process': by_proc,
         'roots': [n for n, _ in roots],
         'unused_negative_providers': unused_neg,
+        'diverges_by_construction': getattr(g, 'diverges', False),
     }
     if ref is not None:
         meta['reference_status'] = ref['status']
@@ -228,6 +254,10 @@ def gen_program(rng, size='quick', closed=True, want_terminating=True, collide=N
         except RecursionError:
             continue
         ref = None
+        if closed and getattr(g, 'diverges', False):
+            p = Program(decls, _meta(g, decls, roots, unused_neg, None), layout_seed)
+            p.meta['terminates'] = False
+            return p
         if closed:
             ref = run_reference(decls, fuel=g.cfg['fuel'], max_procs=4 * g.cfg['max_procs'])
             if ref['status'].startswith('error'):
